@@ -388,7 +388,8 @@ def resubscribe_set():
     C.ext("VarsI.get_machine_var", model=lambda I, env, a, k: I.read_field(env["self"].ref, "value"),
           trusted_reason="MachineVariables.get_machine_var: the CURRENT value")
     C.cls("SettingEntry", fields=dict(machine_var=Str, default=Const(1),
-                                      values=Init(lambda I, n: I.new_dict(((1, VStr("a")), (2, VStr("b"))), n))))
+                                      values=Init(lambda I, n: I.new_dict(((0, VStr("off")), (1, VStr("a")),
+                                                                           (2, VStr("b"))), n))))
     C.cls("SettingsController", file=SETCTL, bases=["MpfController"], fields=dict(
         _settings=Init(lambda I, n: I.new_dict((("known", I.fresh(ObjS("SettingEntry"), n + "[known]")),), n)),
         machine=ObjS("MachineController", variables=ObjS("VarsI"))))
@@ -396,8 +397,8 @@ def resubscribe_set():
     C.fn("SettingsController.get_setting_value", params=dict(setting_name=Const("known")), result=Int,
          ensures=[("SV1: a setting's value is read from its machine variable on EVERY access: the current value of the "
                    "variable if it is a valid one, else the default - however the variable was written (service menu, "
-                   "variable_player, BCP) and whatever an earlier access returned",
-                   "result == (%s if (self.machine.variables.exists and (%s == 1 or %s == 2)) else 1)" % (CUR, CUR, CUR))],
+                   "variable_player, BCP), whatever an earlier access returned, and also when the value is falsy (0 / False)",
+                   "result == (%s if (self.machine.variables.exists and 0 <= %s <= 2) else 1)" % (CUR, CUR))],
          modifies=[], raises={}, skip_frame=True)
     return C
 
